@@ -515,14 +515,17 @@ theorem resolve_order_in_source :
 
 /-- **Obligation.** `setupFuzzyModel` returns early only when NO Taskfile is loaded, sets the
 threshold to 1 (every word counts), feeds the model every key of the merged task table and
-every alias of every task (`Tasks.All(nil)`: the whole table), trains it once, and records the
-longest word; `Setup` calls it after `readTaskfile` (so before any task can run); `GetTask`
+every alias of every task (`Tasks.All(nil)`: the whole table) except words of more than
+`fuzzyMaxWordLen` = 100 characters (fix O8-4: training costs memory cubic in the length of a word; the model's
+`words` are `Suggest.trained 100 names`), trains it once, and records the longest trained word; `Setup` calls it after `readTaskfile` (so before any task can run); `GetTask`
 asks the model (`SpellCheck`) on the not-found path. -/
 theorem suggestions_in_source :
     TaskModel.Gen.ResolveOrder.fuzzyTrain =
       ["guard:Taskfile==nil:return", "call:SetThreshold(1)", "range:Tasks.All(nil)",
        "  ‹words› = append(‹words›, ‹key›)", "  ‹words› = slices.Concat(‹words›, ‹value›.Aliases)",
+       "‹words› = slices.DeleteFunc(‹words›, ‹word› ↦ len(‹word›) > fuzzyMaxWordLen)",
        "call:Train(‹words›)", "range:‹words›", "  e.fuzzyModelMaxLen = max(e.fuzzyModelMaxLen, len(‹value›))"]
+    ∧ TaskModel.Gen.ResolveOrder.fuzzyMaxWordLen = 100
     ∧ (TaskModel.Gen.ResolveOrder.setupSteps.dropWhile (· ≠ "readTaskfile")).contains "setupFuzzyModel" = true
     ∧ TaskModel.Gen.ResolveOrder.getTask.contains "call:SpellCheck" = true := by decide
 
